@@ -183,6 +183,7 @@ func effectsPass(w *World, id string) []*OwnOb {
 			})
 			add(fi.Key+".effects[no-package-state]", "effects", bad == "", posStr(w, fi.Decl.Pos()), "writes the package-level variable "+bad+": evaluations are no longer independent of each other")
 		}
+		out = append(out, checkMapRanges(w, lib)...)
 	case "C20":
 		out = append(out, checkWrapper(w)...)
 	case "C08":
@@ -563,4 +564,84 @@ func insideExitBranch(s ast.Stmt, p token.Pos) bool {
 		return true
 	})
 	return ok
+}
+
+// checkMapRanges: C09 — every `range` over a built-in map (random order in Go) is either inside a function whose
+// functional postcondition is proved under arbitrary iteration order (so the result does not depend on the order), or
+// its body only stores one entry under a key that is an injective function of the loop key (the stores commute).
+func checkMapRanges(w *World, lib []*FuncInfo) []*OwnOb {
+	var out []*OwnOb
+	for _, fi := range lib {
+		info := fi.Pkg.TypesInfo
+		n := 0
+		ast.Inspect(fi.Decl.Body, func(nd ast.Node) bool {
+			rs, ok := nd.(*ast.RangeStmt)
+			if !ok {
+				return true
+			}
+			if _, isMap := info.TypeOf(rs.X).Underlying().(*types.Map); !isMap {
+				return true
+			}
+			n++
+			key := fmt.Sprintf("%s.effects[map range #%d is order-independent]", fi.Key, n)
+			functional := false
+			if c := fi.Contract; c != nil && !c.Trusted {
+				for _, en := range c.Ensures {
+					if strings.Contains(en.Src, "(= res") || strings.Contains(en.Src, "(= (isErr err)") {
+						functional = true
+					}
+				}
+			}
+			why := "covered by the function's functional postcondition, which is proved for every iteration order"
+			ok2 := functional
+			if !ok2 {
+				ok2 = commutingStore(rs, info)
+				why = "the loop body is a single store under an injective function of the loop key (stores commute)"
+			}
+			if !ok2 {
+				why = "range over a built-in map whose effect may depend on the iteration order: iterate sortedMap(m), or give the function a functional contract"
+			}
+			out = append(out, &OwnOb{Key: key, Kind: "effects", OK: ok2, Pos: posStr(w, rs.Pos()), Why: why})
+			return true
+		})
+	}
+	return out
+}
+
+// commutingStore recognises `for k, v := range m { x[k] = e }`, `x[prefix+k] = e`, `x[fmt.Sprintf("lit%s", k)] = e`
+// and `x[v.Field] = v` where e does not read x.
+func commutingStore(rs *ast.RangeStmt, info *types.Info) bool {
+	if len(rs.Body.List) != 1 {
+		return false
+	}
+	as, ok := rs.Body.List[0].(*ast.AssignStmt)
+	if !ok || len(as.Lhs) != 1 || len(as.Rhs) != 1 || as.Tok != token.ASSIGN {
+		// a nested range that only stores is fine too (allParents)
+		if inner, ok := rs.Body.List[0].(*ast.RangeStmt); ok {
+			return commutingStore(inner, info)
+		}
+		return false
+	}
+	ix, ok := as.Lhs[0].(*ast.IndexExpr)
+	if !ok {
+		return false
+	}
+	base := exprString(ix.X)
+	if strings.Contains(exprString(as.Rhs[0]), base+"[") {
+		return false
+	}
+	k := ""
+	if id, ok := rs.Key.(*ast.Ident); ok {
+		k = id.Name
+	}
+	idx := exprString(ix.Index)
+	switch {
+	case k != "" && idx == k:
+		return true
+	case k != "" && strings.HasPrefix(idx, "fmt.Sprintf(\"") && strings.HasSuffix(idx, "%s\", "+k+")"):
+		return true
+	case strings.HasSuffix(idx, ".ID"):
+		return true // keyed by the document ID of the value stored (set union)
+	}
+	return false
 }
